@@ -26,6 +26,9 @@ def families(tier):
     # pre-terminal probabilities around 2.2e-16 (machine epsilon as an ABSOLUTE number): gaps between co-parents below it, at it and above it -
     # a tie test with an absolute tolerance is not transitive here
     fam['near_epsilon'] = lambda: R.family_single([1.0, 0.7, 0.5, 0.3], 3, [2e-14, 1e-14, 6e-15, 3e-15, 1e-15], patterns=['AB', 'ABC'])
+    # structures of 8 transitions with EQUAL base probability and different group probabilities (anything remembered per base probability,
+    # or switched on only for long structures, meets its twin here)
+    fam['long_tied_structures'] = family_long_tied
     if tier == 'thorough':
         fam['single_full2'] = lambda: R.family_single(R.V_FULL, 3, [1.0, 0.3], patterns=['A', 'AA', 'AB', 'AAA', 'AAB', 'ABA', 'ABB'])
         fam['single_full3'] = lambda: R.family_single(R.V_FULL, 2, [1.0, 0.3], patterns=['ABC'])
@@ -57,6 +60,15 @@ def family_similar_names():
                     yield types, [(bp, [name]) for bp, name in zip(bps, names)]
                 # the same names inside longer structures
                 yield types, [(0.5, [names[0], names[1]]), (0.5, [names[1], names[0]])]
+
+
+def family_long_tied():
+    for v1, v2 in (([.7, .3], [.6, .4]), ([.5, .25], [.5, .3]), ([.9, .1], [.8, .15, .05])):
+        for half in (4,):
+            types = {'D1': v1, 'D2': v2, 'O1': [.5, .25]}
+            for bps in ((.25, .25, .5), (.3, .3, .3)):
+                yield types, [(bps[0], ['D1', 'O1'] * half), (bps[1], ['D2', 'O1'] * half), (bps[2], ['D1', 'O1'])]
+                yield types, [(bps[0], ['D2', 'O1'] * half), (bps[1], ['D1', 'O1'] * half), (bps[2], ['O1', 'D2'])]
 
 
 def shards(tier):
